@@ -135,6 +135,54 @@ std::string handle(const std::string& op, Args& a)
 			r.out(o, 1);
 		});
 	}
+	if(op == "c13.seq")
+	{
+		// history: all calls in ONE child process, one after the other; then each call alone in a fresh child
+		size_t k = a.u64();
+		struct Member
+		{
+			int dim;
+			std::string m;
+			int p;
+			double l[4];
+			Fam f[2];
+		};
+		std::vector<Member> mem(k);
+		for(auto& c : mem)
+		{
+			c.dim = a.i64();
+			if(c.dim != 1 && c.dim != 2)
+				throw BadArgs("dim");
+			c.m = a.tok();
+			c.p = a.i64();
+			for(int i = 0; i < 2 * c.dim; i++)
+				c.l[i] = a.dbl();
+			for(int i = 0; i < c.dim; i++)
+				c.f[i] = famarg(a);
+		}
+		a.end();
+		auto call = [](const Member& c) {
+			if(c.dim == 1)
+				return Integrate(c.f[0], c.l[0], c.l[1], c.m, c.p);
+			Fam g = c.f[0], h = c.f[1];
+			return Integrate_2D([g, h](double x, double y) { return g(x) * h(y); }, c.l[0], c.l[1], c.l[2], c.l[3], c.m, c.p);
+		};
+		std::string seq = run_forked([&](Out& o) {
+			for(auto& c : mem)
+				o << call(c);
+		});
+		if(seq.compare(0, 2, "ok") != 0)
+			return seq;
+		std::string res = "ok " + std::to_string(k) + seq.substr(2) + " alone";
+		for(auto& c : mem)
+		{
+			std::string one = run_forked([&](Out& o) { o << call(c); });
+			if(one.compare(0, 2, "ok") != 0)
+				return one;
+			res += one.substr(2);
+		}
+		return res;
+	}
 	if(op == "c13.default1")   // default method is "Gauss-Legendre"
 	{
 		double x1 = a.dbl(), x2 = a.dbl();
